@@ -170,6 +170,21 @@ def run_env_task(task):
         rmtree(d)
 
 
+def run_read_task(task):
+    d = Path(tempfile.mkdtemp(prefix="c07r-", dir=tmp_root()))
+    try:
+        for rel, text in task["files"].items():
+            (d / rel).write_text(text, encoding="utf-8")
+        if task["kind"] == "not-utf8":
+            (d / "bad.mac").write_bytes("\tnop\t; комментарий\n".encode("koi8-r"))
+        elif task["kind"] == "directory":
+            (d / "bad.mac").mkdir()
+        r = run_cli(task["args"], d, timeout=60)
+        return {"rc": r["rc"], "hang": r["hang"], "err": r["err"].replace(str(d), "<ROOT>"), "changed": sorted(r["changed"]), "removed": r["removed"]}
+    finally:
+        rmtree(d)
+
+
 def run_trace_task(task):
     d = materialise(task)
     try:
@@ -397,6 +412,33 @@ def main(run):
             run.violation(f"unwritable directive output: {what}: " + "; ".join(bad), {"case": {k: t[k] for k in ("directive", "target", "setup", "args")},
                                                                                      "rc": res["rc"], "stderr_tail": res["err"][-600:]}, files=t["files"])
     run.note("unwritable_directive_output_runs", len(etasks))
+
+    # ---------------- unreadable sources (Cli.tla: ReadFail -- the run ends in the Read phase with exit status 1 and nothing written),
+    # next to sources that would assemble on their own
+    rtasks = []
+    for kind in ("not-utf8", "missing", "directory"):
+        for pos in (0, 1):
+            for extra in (["--report-format=bare", "-o", "x.bin", "--lst"], ["--implicit-bin", "-Wall"], ["-o", "x", "--lst", "-Wno-all"]):
+                good = "\t.link 1000\n\tmov #1, r0\n\tmake_raw \"made.raw\"\n"
+                names = ["good.mac", "bad.mac"] if pos else ["bad.mac", "good.mac"]
+                rtasks.append({"kind": kind, "args": extra + names, "files": {"good.mac": good}})
+    for t, res in zip(rtasks, pmap(run_read_task, rtasks)):
+        run.add_eval()
+        run.add_nontrivial(("read", t["kind"], tuple(t["args"])))
+        what = f"`pdpy11 {' '.join(t['args'])}` where bad.mac is {t['kind']}"
+        bad = []
+        if res["hang"]:
+            bad.append("does not terminate")
+        if res["rc"] == 0:
+            bad.append("exit status 0")
+        if res["changed"] or res["removed"]:
+            bad.append(f"files created or modified {sorted(res['changed'])}, removed {res['removed']}")
+        if "internal compiler error" in res["err"]:
+            bad.append("internal compiler error")
+        if bad:
+            run.violation(f"unreadable source: {what}: " + "; ".join(bad), {"case": {k: t[k] for k in ("kind", "args")}, "rc": res["rc"],
+                                                                        "stderr_tail": res["err"][-600:]}, files=t["files"])
+    run.note("unreadable_source_runs", len(rtasks))
 
     # ---------------- (C->M) ordered event traces of in-process runs, validated by CliTrace.tla
     ttasks = [t for r, t in zip(chosen, tasks) if r["var"] in (0, 1, 3, 11)] if not thorough else tasks
